@@ -14,18 +14,22 @@ def run(tier):
         if spec in REACH:
             env["H_REACH"] = REACH[spec]
         conds.append(Cond("h_parse_str.py", "complete", to, twin="reach", path_timeout=to / 2, env=env))
+    for spec, alpha, ql, tl in RX_SPECS:
+        conds.append(Cond("h_parse_str.py", "complete_fa", to, path_timeout=to / 2,
+                          env={"H_SPEC": spec, "H_LEN": str(ql if tier == "quick" else tl), "H_ALPHA": alpha}))
     # generator direction: every tree Grammar.fuzz can produce re-parses with an identical serialisation
     for spec in ("list", "nested", "prefix", "open", "rec"):
         conds.append(Cond("h_fuzz.py", "roundtrip", to, twin="reach", path_timeout=to / 2,
                           env={"H_SPEC": spec, "H_BUDGETS": "0,2,5,12" if tier == "quick" else "0,2,5,12,30",
                                "H_CHOICES": "8" if tier == "quick" else "14", "H_RSIZE": {"open": "5", "prefix": "5"}.get(spec, "7")}))
+    conds.append(Cond("h_fuzz.py", "roundtrip_bytes", to, path_timeout=to / 2, env={"H_SPEC": "rxgen", "H_BUDGETS": "5,12", "H_CHOICES": "6"}))
     run.run_conditions(conds, conformance_harnesses=["h_parse_str.py"] + [("h_fuzz.py", {"H_SPEC": s}) for s in ("list", "nested", "open")])
     run.encoded = PARSER_FUNCS + ["Grammar.fuzz", "Alternative/Concatenation/Repetition/NonTerminalNode/TerminalNode.fuzz"]
     run.extra["source_sha256_16"] = source_fingerprint(PARSER_FILES)
     run.bounds = {"word": "str over all code points", "max_len": {s: (q if tier == "quick" else t) for s, q, t in STR_SPECS},
                   "generator direction": "all random draws symbolic (<= 8 / 14 draws), node budgets {0,2,5,12} / +30, MAX_REPETITIONS lowered to 2"}
-    run.outside = ["regex terminals (third-party C matcher realises its subject) - so the 'regex that may match the empty string' "
-                   "class named in the property is NOT decided here", "bytes/bit-level grammars (see C04/C13 byte conditions)",
+    run.bounds["regex terminals"] = "5 grammars with regex terminals incl. empty-matching ones (r'a*' 'b'; 'x' r'[0-9]?' 'y') on ALL words over a 2-4 letter alphabet up to length 3-4"
+    run.outside = ["regex terminals on words outside the stated finite alphabets; regex terminals that can be split in more than one way (excluded by the property)", "bytes/bit-level grammars (see C04/C13 byte conditions)",
                    "words longer than the bound", "the constraint filter of --validate"]
     run.assumptions = TRUST
     return run.finish(
